@@ -31,7 +31,13 @@ rule("C13.k", "a full-grid series taken from the price data is brought to the as
               "each interval) - prices and limits alike", floor=3)
 
 
-@analysis("minorgrid", ["C01.g", "C13.e", "C13.k"])
+rule("C13.l", "the average of a fine series over the fine steps of a coarse interval is weighted with the lengths of those steps "
+              "(np.average(x[I], weights = dt[I]) with the full grid's dt and the same selector): a constant rate over the interval meets "
+              "price / limit k for dt_k hours - the plain mean is that only when all fine steps are equally long (not on a daily grid over "
+              "a daylight-saving switch, not on a monthly grid)", floor=3)
+
+
+@analysis("minorgrid", ["C01.g", "C13.e", "C13.k", "C13.l"])
 def run(ctx):
     p = ctx.p
     n_sites = 0
@@ -155,3 +161,38 @@ def run(ctx):
                    "steps (a capacity series that is 0 in the first half of each day and 10 in the second gives the daily asset capacity 0)",
                    node=st)
     ctx.require(n_k >= 3, "fewer than 3 price series restricted to the asset's grid found", rules=["C13.k"])
+
+    # ================================================================= C13.l the average is weighted with the step lengths
+    n_l = 0
+    for fn in sorted(p.all_functions(), key=lambda f: f.qualname):
+        if fn.parent is not None or fn.cls is None or not p.is_subclass(fn.cls, "Asset"):
+            continue
+        for node in au.walk_local(fn.node, include_self=False):
+            # loops / comprehensions over ...I_minor_in_major
+            if isinstance(node, ast.For):
+                it, tgt, inner = node.iter, node.target, [x for b0 in au.walk_stmts(node.body) for x in au.walk_own(b0)]
+            elif isinstance(node, (ast.ListComp, ast.GeneratorExp)) and len(node.generators) == 1:
+                it, tgt, inner = node.generators[0].iter, node.generators[0].target, list(au.walk_local(node.elt))
+            else:
+                continue
+            if not (isinstance(it, ast.Attribute) and it.attr == "I_minor_in_major" and isinstance(tgt, ast.Name)):
+                continue
+            v = tgt.id
+            for x in inner:
+                if not (isinstance(x, ast.Call) and au.method_name(x) in ("mean", "average", "nanmean", "median")):
+                    continue
+                operand = x.func.value if (isinstance(x.func, ast.Attribute) and au.base_name(x.func) != "np") else (x.args[0] if x.args else None)
+                if not (isinstance(operand, ast.Subscript) and isinstance(operand.slice, ast.Name) and operand.slice.id == v):
+                    continue
+                n_l += 1
+                w = au.kwarg(x, "weights") or (x.args[2] if au.method_name(x) == "average" and len(x.args) > 2 else None)
+                ok = au.method_name(x) == "average" and isinstance(w, ast.Subscript) and isinstance(w.slice, ast.Name) and w.slice.id == v \
+                    and au.terminal(w.value) == "dt" and "restricted" not in au.U(w.value)
+                ctx.ob("C13.l", fn, au.short(x, 70), ok,
+                       "the fine values of a coarse interval are averaged %s: at a constant rate over the interval the asset meets the value of "
+                       "fine step k for dt_k time units, so the coarse value is sum(x_k dt_k) / sum(dt_k). On a daily CET grid with freq '7d' the "
+                       "week of the daylight-saving switch has a 23 h day: the optimum is 238.57 instead of 230.00 (the fine problem with the "
+                       "equalities added), a capacity series gives 739.6 instead of 719" % (
+                           "without weights" if w is None else "with weights %s that are not the full grid's dt under the same selector" % au.short(w, 40)),
+                       node=x, key="average over the fine steps of a coarse interval is weighted with dt: %s" % au.short(operand.value, 30))
+    ctx.require(n_l >= 3, "fewer than 3 averages over the fine steps of a coarse interval found", rules=["C13.l"])
